@@ -17,7 +17,7 @@ import c12_gen as G
 META = {
     "category": "proof",
     "text": "Coq theorems (Log/Props_C12.v, closed under the global context) over an executable model of sst/src/log.rs (WriteBatch, LogBuilder::_append/append_split/true_up, LogIterator::next/next_frame/next_header/true_up, the prototk header and entry codecs) for every block size > HEADER_MAX_SIZE, every batch size/count and an arbitrary crc function: reading a written log returns exactly the entries of the successfully appended batches in order and ends cleanly; reading ANY byte prefix of it returns exactly the batches wholly inside the prefix and then ends or errors; a consumer that keeps calling next() after an error gets a clean end on every cut, never an entry (C12_nothing_after_error; fix 71e5745); the writer never panics, lays frames out as whole | first+padding+second with padding <= HEADER_MAX_SIZE, fails only at the two size checks; the reader is total on arbitrary bytes; plus, for every schedule of ConcurrentLogBuilder::append over the wait-list-level model of sync42's WorkCoalescingQueue that area Sync42 proves correct (two copies of Sync42/ModelWcq.v instantiated with WriteCoalescingCore and FsyncCoalescingCore and glued as append glues them; threads as program counters, mutexes, condition variables with spurious wake-ups, rings smaller than the number of threads; no atomicity assumed): no panic, the file is the sequential log of the merged batches (each linked request at most once, whole, in link order), a call returns Ok only after an fdatasync covering its bytes completed, no fdatasync is issued or trusted after one has failed (fix be5f137), an append is refused by `poison` only after some call was answered with an error (b7cac52), and an acknowledged batch is read back from every cut at or after the durable mark. The model is tied to the code by differential runs on boundary-solved logs (0..25 bytes before the 1 MiB boundary), all truncations in windows around boundaries/frame ends, mutated and raw malformed files, multi-threaded appends (file decomposition + strace ordering of write/fdatasync/ack, also with one fdatasync made to fail by strace fault injection); after every read error both sides call next() three more times and the results are compared.",
-    "note": "Outside the property and not modelled: ConcurrentLogBuilder::fsync() (fsync_cq.do_work(0) returns true without a system call when it is alone, although its doc says all previously written data is durable; lsmtk does not call it) ; I/O write errors (52fc470 FailStop) are outside the model. The `poison` flag (read at the top of append since b7cac52) is modelled: C12_conc_refused_only_after_error. Trusted: Coq kernel; tools/constants.py; ExtrOcamlBasic extraction + ocaml/log/mx_log.ml (incl. its crc32c); harness c12; strace. crc32c is an arbitrary function (no property used). I/O errors other than short reads, and the BufWriter/BufReader internals, are outside the model. The concurrent theorems rest on Sync42's invariant of the queue machine (imported, not re-proved) and on: ModelWcq.v being the real queue (C18's correspondence), the four glue lines of append, and the meaning of fdatasync.",
+    "note": "Outside the property and not modelled: ConcurrentLogBuilder::fsync() (fsync_cq.do_work(0) returns true without a system call when it is alone, although its doc says all previously written data is durable; lsmtk does not call it) ; I/O write errors (52fc470 FailStop) are outside the model. The model's builder starts on an empty file: a directed case checks that LogBuilder::new / ConcurrentLogBuilder::new refuse an existing path and leave it untouched; write(2) errors (ENOSPC/EIO injected by strace on the log file) are checked against the fail-stop oracle only, not modelled. The `poison` flag (read at the top of append since b7cac52) is modelled: C12_conc_refused_only_after_error. Trusted: Coq kernel; tools/constants.py; ExtrOcamlBasic extraction + ocaml/log/mx_log.ml (incl. its crc32c); harness c12; strace. crc32c is an arbitrary function (no property used). I/O errors other than short reads, and the BufWriter/BufReader internals, are outside the model. The concurrent theorems rest on Sync42's invariant of the queue machine (imported, not re-proved) and on: ModelWcq.v being the real queue (C18's correspondence), the four glue lines of append, and the meaning of fdatasync.",
 }
 
 PROPS = "theories/Log/Props_C12.v"
@@ -224,6 +224,15 @@ def run(chk):
     strace_info = G.strace_durability(chk, hxbin, rng.fork(), quick)
     for what, detail, caseline in strace_info["bad"]:
         conc_bad.append({"tag": "strace", "what": what, "detail": detail, "case": caseline, "under_strace": True})
+    # ---- write errors (strace fault injection on the log file) and the builder on an existing path
+    wf = G.write_fault_runs(chk, hxbin, rng.fork(), quick)
+    for what, detail, rp in wf["bad"]:
+        conc_bad.append({"tag": "wfault", "what": what, "detail": detail, "case": rp["line"], "write_fault": rp})
+    ex_out = run_each(hxbin, ["exists"], 1, CONC_TIMEOUT)[0]
+    exd = dict(kv.split("=", 1) for kv in ex_out.split()[1:]) if ex_out.startswith("exists ") else {}
+    if not (exd.get("seq", "").startswith("err:") and exd.get("conc", "").startswith("err:") and exd.get("same") == "true"):
+        conc_bad.append({"tag": "exists", "what": "builder-opened-an-existing-log", "case": "exists",
+                         "detail": "LogBuilder::new / ConcurrentLogBuilder::new on an existing non-empty log must fail and leave it byte-identical: " + ex_out[:200]})
     t3 = time.time()
 
     chk.coverage.update({
@@ -233,6 +242,7 @@ def run(chk):
         "samples": [cases[ncorpus].impl_line()[:600] if len(cases) > ncorpus else "", cases[-1].impl_line()[:600], conc[0].line[:400] if conc else ""],
         "input_distribution": stats, "read_outcomes_impl": errkinds,
         "corpus_cases": ncorpus, "reads": n_reads, "truncations": n_cuts, "reads_also_run_on_model": n_model_reads,
+        "write_fault_runs": {k: v for k, v in wf.items() if k != "bad"}, "existing_path_refused": ex_out,
         "concurrent_cases": len(conc), "strace": {k: v for k, v in strace_info.items() if k != "bad"},
         "traces_validated_against_impl": strace_info["runs"] + len(conc),
         "correspondence": "impl (Rust, release + overflow-checks + debug-assertions) vs extracted Coq model: append results and offsets, byte-exact file (length + FNV-1a 64), read results (entries as batch prefix or digest, end/error class); direct oracle: prefix rule from the implementation's own append offsets",
@@ -254,7 +264,7 @@ def run(chk):
     if prop_bad or conc_bad:
         b = (prop_bad + conc_bad)[0]
         chk.violation("c12_%s.json" % b["tag"].replace(":", "_"), {"kind": "property", "what": b["what"], "detail": b.get("detail"), "case": b.get("case"),
-                                                               "under_strace": b.get("under_strace", False),
+                                                               "under_strace": b.get("under_strace", False), "write_fault": b.get("write_fault"),
                                                                "impl_out": b.get("impl_out"), "others": len(prop_bad) + len(conc_bad) - 1,
                                                                "replay_cmd": "./bin/check C12 --replay <this file>"})
     elif corr_bad or not ok_proof:
@@ -272,6 +282,17 @@ def replay(path):
     if not case:
         return 1
     okh, outh, (hxbin,) = vlib.cargo_build(["c12"])
+    if obj.get("write_fault"):
+        o = G.write_fault_replay(hxbin, obj["write_fault"], os.path.join(vlib.WORK, "replay", "C12", "wfault_replay"))
+        print("impl now :", o[:2000])
+        print("verdict  : compare with `detail` above (an append that returned err must not be in the file; no ok after an err)")
+        return 1 if ("HANG" in o) else 0
+    if case == "exists":
+        o = run_each(hxbin, ["exists"], 1, CONC_TIMEOUT)[0]
+        print("impl now :", o)
+        ok = " seq=err:" in o and " conc=err:" in o and "same=true" in o
+        print("verdict  :", "holds" if ok else "builder opened an existing log")
+        return 0 if ok else 1
     if isinstance(case, str) and obj.get("under_strace"):
         info = {"runs": 0, "acks_checked": 0, "fdatasyncs": 0, "writes": 0, "bad": []}
         d = os.path.join(vlib.WORK, "replay", "C12", "strace_replay")
